@@ -38,6 +38,7 @@ type HistorySetup struct {
 	ParamsDesc    string    `json:"params"`
 	Funds         []FundRec `json:"funds"`
 	ModSvcPricing string    `json:"modsvc_pricing,omitempty"`
+	StateCbKill   bool      `json:"state_callback_kills,omitempty"`
 }
 
 type History struct {
@@ -197,6 +198,11 @@ func (r *Run) InstallModuleService(pricing string) {
 	r.hist.Setup.ModSvcPricing = pricing
 }
 
+func (r *Run) SetStateCbKill(v bool) {
+	r.w.stateCbKill = v
+	r.hist.Setup.StateCbKill = v
+}
+
 // Begin takes the initial snapshot; call after funding.
 func (r *Run) Begin() {
 	r.pre = r.w.TakeSnap()
@@ -244,6 +250,13 @@ func (r *Run) Mod(op ModOp, note string) StepResult {
 	return res
 }
 
+func (r *Run) Restart() StepResult {
+	st := Step{Kind: "restart", Desc: "zero-height restart: prepare, export, wipe the module store, import"}
+	res := r.w.Restart()
+	r.after(st, nil, res)
+	return res
+}
+
 func (r *Run) SetModSvcBehaviour(b ModSvcBehaviour) {
 	r.w.modSvcBehaviour = b
 	r.hist.Steps = append(r.hist.Steps, Step{Kind: "modsvc", Behaviour: int(b), Desc: fmt.Sprintf("module service answers in mode %d", b)})
@@ -275,6 +288,7 @@ func Replay(a *App, h *History, mon *Mon) *Run {
 	if h.Setup.ModSvcPricing != "" {
 		r.InstallModuleService(h.Setup.ModSvcPricing)
 	}
+	r.SetStateCbKill(h.Setup.StateCbKill)
 	r.Begin()
 	for _, st := range h.Steps {
 		switch st.Kind {
@@ -286,6 +300,8 @@ func Replay(a *App, h *History, mon *Mon) *Run {
 			r.Mod(*st.Mod, st.Note)
 		case "modsvc":
 			r.SetModSvcBehaviour(ModSvcBehaviour(st.Behaviour))
+		case "restart":
+			r.Restart()
 		}
 	}
 	r.Finish()
